@@ -9,7 +9,10 @@ def run(chk, replay=None):
                 "commitment structure (Shelley-Mary: hash of 3 segment hashes; Alonzo-Conway: of 4; Dijkstra: hash of "
                 "the block body; Byron main: tx count, merkle root over tx bodies, hash of the witness lists, "
                 "delegation hash, update hash, ssc proof carried but not compared; Byron EBB: body hash); DecodeOk <=> "
-                "~validate \\/ every compared commitment = its recomputation. TLC pairs the original header (or one "
+                "every commitment compared under the caller's VerifyConfig = its recomputation; configurations: skip "
+                "(SkipBodyHashValidation, nothing compared), default, ssc_hash (EnableByronSscProofHashValidation: the "
+                "Byron ssc proof compared in addition; invariant NoConfigWeakens: a validating configuration never "
+                "compares less than the default). TLC pairs the original header (or one "
                 "with a single commitment replaced) with every body of the model and proves: real / well-formed blocks "
                 "decode, skip compares nothing, any covered difference is refused (Binding), any replaced compared "
                 "commitment is refused, each compared commitment is needed, every part but the ssc payload is covered, "
@@ -51,7 +54,7 @@ def _self_test(chk, drv, cases):
     rows = vlib.read_ndjson(cases)
     flipped = []
     for r in rows:
-        if r["validate"] and ((r["era"] == "conway" and r["mut"] == "part" and r["target"] == "tx_bodies")
+        if r["config"] == "default" and ((r["era"] == "conway" and r["mut"] == "part" and r["target"] == "tx_bodies")
                               or (r["era"] == "byron_main" and r["mut"] == "commit" and r["target"] == "dlg")):
             if r["decode_ok"]:
                 raise vlib.MachineryError("self-test: reference row already says decode_ok")
